@@ -208,25 +208,37 @@ def run_cases(ctx, with_model=True, stop_first=False):
             ctx.samples.append(dict(tag, frames=len(frames), iterations=its[:8].tolist(), first_errors=[steps[0][:4]] if steps else []))
     # non-convergence must raise
     dev = zoo.make_device("ring", ctx.rng, max_edge_length=1.0, lam=0.4, d=0.1)
-    try:
-        tdgl.solve(dev, runs.options(solve_time=0.05, dt_init=1e-2, include_screening=True, screening_tolerance=1e-12, max_iterations_per_step=2), applied_vector_potential=0.5)
-        ctx.fail("nonconvergence-silent", "screening could not converge within max_iterations_per_step=2 but no error was raised", dict(max_iterations_per_step=2))
-        first = first or dict(key="nonconvergence-silent", what="no error raised")
-    except RuntimeError:
-        ctx.count("nonconvergence_raised")
+    with ErrLog() as nlog:
+        try:
+            tdgl.solve(dev, runs.options(solve_time=0.05, dt_init=1e-2, include_screening=True, screening_tolerance=1e-12, max_iterations_per_step=2), applied_vector_potential=0.5)
+            if any(not (s_[-1] < 1e-12) for s_ in nlog.steps if s_):
+                ctx.fail("nonconvergence-silent", "screening could not converge within max_iterations_per_step=2 but no error was raised", dict(max_iterations_per_step=2))
+                first = first or dict(key="nonconvergence-silent", what="no error raised")
+        except RuntimeError:
+            ctx.count("nonconvergence_raised")
     # slow convergence (a small but legitimate step size, no drag reduction): the error creeps down by much less than
     # a per cent per iteration and is nowhere near the tolerance when the iteration budget ends -> must raise, and
     # every iteration of the budget must have been used
+    import numba
+
+    nthreads = numba.get_num_threads()
+    numba.set_num_threads(min(nthreads, 2))  # ~1500 tiny kernel calls: two threads are as fast and do not fight with other jobs
     with ErrLog() as slog:
         try:
             tdgl.solve(dev, runs.options(solve_time=0.05, dt_init=1e-2, include_screening=True, screening_tolerance=1e-3, screening_step_size=2e-4, screening_step_drag=1.0,
                                          max_iterations_per_step=1500), applied_vector_potential=0.5)
             last = [s_ for s_ in slog.steps if s_]
-            rp = dict(max_iterations_per_step=1500, screening_step_size=2e-4, screening_step_drag=1.0, iterations=[len(s_) for s_ in last][:4], last_error=(last[0][-1] if last else None))
-            ctx.fail("nonconvergence-silent:slow", f"slowly converging screening (step size 2e-4) was accepted after {rp['iterations']} iterations with error {rp['last_error']} >= tolerance 1e-3; no error was raised", rp)
-            first = first or dict(key="nonconvergence-silent:slow", what="slow convergence accepted", **rp)
+            unconverged = [s_ for s_ in last if not (s_[-1] < 1e-3)]
+            if unconverged:
+                rp = dict(max_iterations_per_step=1500, screening_step_size=2e-4, screening_step_drag=1.0, iterations=[len(s_) for s_ in last][:4], last_error=unconverged[0][-1])
+                ctx.fail("nonconvergence-silent:slow", f"slowly converging screening (step size 2e-4) was accepted after {rp['iterations']} iterations with error {rp['last_error']} >= tolerance 1e-3; no error was raised", rp)
+                first = first or dict(key="nonconvergence-silent:slow", what="slow convergence accepted", **rp)
+            else:
+                ctx.count("slow_configuration_converged_within_budget")  # legitimate: every accepted step ended below the tolerance
         except RuntimeError:
             ctx.count("slow_nonconvergence_raised")
+        finally:
+            numba.set_num_threads(nthreads)
     ctx.case(("nonconvergence-slow",), nontrivial=True)
     if with_model:
         (o,) = V.driver([f"screen {V.bits(1e-12)} 2 | " + zoo.fl([1.0, 0.5, 0.25, 0.1, 0.05])])
